@@ -19,7 +19,7 @@
 (*           others must vanish.  An output of ts_split is judged the same *)
 (*           way (its PID enabled from the start).                         *)
 (* mode "P"  PES chunks -> ts_pes_decaps -> sink                           *)
-(*   Pes  {b,ptsf,dtsf,pts,dts}  a PES packet built by the reference       *)
+(*   Pes  {b,ptsf,dtsf,pts,dts,pd}  a PES packet built by the reference    *)
 (*        serializer (b = payload octets, pts/dts = 33-bit values as three *)
 (*        16-bit limbs) and fed in chunks                                  *)
 (* mode "Q"  access units -> ts_pes_encaps -> ts_pes_decaps -> sink        *)
@@ -154,7 +154,10 @@ UnitOf(b, ptsf, dtsf, pts33, dts33, rap, disc) ==
 
 TPes == /\ IsEv("Pes") /\ mode = "P"
         /\ LET e == Tr[l] IN
-           q' = Append(q, UnitOf(e.b, B(e.ptsf), B(e.dtsf), Low33(e.pts), Low33(e.dts), -1, 0))
+           \* (a padding_stream packet - pd = 1 - carries nothing: whatever its length and however it is cut,
+           \* none of its octets comes out)
+           q' = IF e.pd = 1 THEN q
+                ELSE Append(q, UnitOf(e.b, B(e.ptsf), B(e.dtsf), Low33(e.pts), Low33(e.dts), -1, 0))
         /\ UNCHANGED <<mode, a, cur, sync, cu, got, enc>>
 
 TAu == /\ IsEv("Au") /\ mode \in {"Q", "E"}
